@@ -21,7 +21,10 @@ const spaceRule = "one case = one process: 1-4 requester tasks issue seeded Acqu
 
 const memRule = "one case = one plan in one of three configurations: (arena) 1-2 writer tasks call memory.WriteTo with seeded offset/length 1..9000 into a 6-page assembly arena of callable cells (small writes, writes straddling page boundaries, multi-page writes, 13-byte writes) while 1-2 caller tasks scheduled at mem.write.rwx / mem.write.copied execute cells on the pages being written; (faults) one writer with errno injected at the mprotect seam; (sweep) patch.Ptr + Apply + Unpatch over 20-200 real functions of linked-but-never-executed library packages and the zoo with a full .text diff and /proc/self/maps check around every write; non-trivial = a context switch or an injected fault occurred, or the plan is a sweep; distinct = hash of (operations, context-switch sequence, fired faults)"
 
+const symRule = "one case = one fresh load of the symbol tables (ResetForVerif) followed by lookups of present functions (every uniquely named function of the binary is covered by consecutive 100-name blocks across seeds), zoo variables, absent and near-miss names, from 1-4 tasks racing into first use under the scheduler; in 70% of the cases exactly one read of the executable fails through the reader seam (EIO, truncation, zero-filled data) at an enumerated call index 0..47; non-trivial = a fault fired or a context switch occurred; distinct = hash of (names, context-switch sequence, fired fault)"
+
 func init() {
+	props["C10"] = propCfg{World: "sym", Level: "fault_enumeration", Quick: 1500, Thorough: 60000, RaceQ: 200, RaceT: 6000, Chunk: 25, Extra: map[string]int{"pie": 150, "strip": 150}, Rule: symRule, Assume: commonAssume}
 	props["C14"] = propCfg{World: "mem", Level: "exploration", Quick: 2500, Thorough: 200000, Chunk: 50, Rule: memRule, Assume: commonAssume}
 	props["C20"] = propCfg{World: "space", Level: "fault_enumeration", Quick: 1500, Thorough: 150000, RaceQ: 300, RaceT: 20000, PerProc: true, Rule: spaceRule, Assume: commonAssume}
 	props["C11"] = propCfg{World: "conc", Level: "exploration", Quick: 3000, Thorough: 250000, RaceQ: 500, RaceT: 40000, Chunk: 50, Rule: concRule, Assume: commonAssume}
